@@ -52,6 +52,8 @@ func natLimbs(x int64) []int {
 func qciRecord(out io.Writer, args []string) error {
 	rf := newRecFlags("qci", 30)
 	maxN := rf.fs.Int("max", 12, "largest n of the exact branch to record (<= 30)")
+	minN := rf.fs.Int("min", 1, "smallest n of the exact branch to record")
+	edgeMax := rf.fs.Int("edgemax", 20, "largest n combined with q within 1e-9 of 0 and 1 (270-digit masses at n = 30)")
 	qden := rf.fs.Int("qden", 16, "q = a/qden")
 	levels := rf.fs.Int("levels", 40, "confidence grid size")
 	bigN := rf.fs.Bool("big", false, "record n > 30 (normal approximation) instead")
@@ -66,11 +68,13 @@ func qciRecord(out io.Writer, args []string) error {
 	}
 	var grid []dist
 	if !*bigN {
-		for n := 1; n <= *maxN; n++ {
+		for n := *minN; n <= *maxN; n++ {
 			for a := 0; a <= *qden; a++ {
 				grid = append(grid, dist{n, int64(a), int64(*qden)})
 			}
-			grid = append(grid, dist{n, 1, 1000000000}, dist{n, 999999999, 1000000000})
+			if n <= *edgeMax {
+				grid = append(grid, dist{n, 1, 1000000000}, dist{n, 999999999, 1000000000})
+			}
 		}
 	} else {
 		for _, n := range []int{31, 32, 50, 100, 1000, 2000} {
